@@ -431,7 +431,7 @@ func genMetric(r *rand.Rand, mode string) metricIn {
 			// an order statistic over windows that overlap (points survive from one step to the next) and values that go up and down
 			in.Recs = genMetricRecs(r, 6+r.Intn(10), span, false)
 			e := genRange(r, 1, true)
-			for e.Op != "quantile_over_time" && e.Op != "min_over_time" && e.Op != "max_over_time" && e.Op != "first_over_time" {
+			for e.Op != "quantile_over_time" && e.Op != "min_over_time" && e.Op != "max_over_time" && e.Op != "first_over_time" && e.Op != "stdvar_over_time" && e.Op != "stddev_over_time" {
 				e = genRange(r, 1, true)
 			}
 			e.Range = []int{10, 15, 20}[r.Intn(3)]
